@@ -143,6 +143,18 @@ CLAIMED = {
          "HVAR metrics through skrifa not covered yet.",
     technique="TLA+ builder contract + reader semantics; TLC-enumerated histories replayed on the builder; trace validation of compiled stores and numeric relations",
     design="4/C11"),
+ "C10": dict(
+    category="model_checking",
+    text="Iup.tla gives the specification's inference of un-referenced point deltas in exact rational arithmetic and the "
+         "delta optimiser's contract; PackedRuns.tla decodes packed deltas and packed point numbers. TLC enumerates small "
+         "contours x deltas x tolerances for iup_delta_optimize and the results are judged by the specification; byte "
+         "streams written by PackedDeltas / PackedPointNumbers are decoded by the specification; random glyph variations "
+         "are compiled through GlyphVariations/Gvar, read back and judged (required exact, omitted within tolerance by "
+         "inference), and drawn by skrifa at several locations against default + scalar * delta.",
+    note="Trusted: TLC, read-fonts' tuple iterator for the gvar container (packed runs are decoded independently). "
+         "Contours <= 4 points exhaustively; accumulated deltas kept inside the scaler's 16.16 range for the drawing check.",
+    technique="TLA+ IUP inference + packed-run decoders; TLC-enumerated cases replayed on the optimiser; trace validation of compiled gvar data",
+    design="4/C10"),
 }
 
 NOT_APPLICABLE = {
